@@ -47,6 +47,21 @@ CHECKS = {
   text=BT + "Slice: the callback answers done on its k-th call, every scan kind." + MB + " k: every position for small results, else all page-boundary positions, neighbours and a sample; also checks on the recorded trace that the unlock directly follows the k-th callback.",
   note=NOTE + "independent reader (cross-checked); release of the kernel lock itself is observed by C06",
   design="6 C17, 3.3"),
+ "C02": dict(
+  technique="TLA+ spec BTree.tla (nested index->table lookup); TLC-exhaustive refinement of index traversal on small trees; trace validation of recorded IndexedSelect by TLC; rows compared with real SQLite by TLC",
+  text=BT + "Slice: IndexedSelect through every index (multi-column, COLLATE, DESC, UNIQUE, partial, expression, automatic; rowid and WITHOUT ROWID tables with odd primary-key layouts)." + MB + " The nested Reference maps every index entry to its table row (by rowid, or by the PK columns SQLite's index_xinfo locates inside the entry); delivered values are compared with SQLite's ORDER BY rows by TLC; an index sqlittle leaves out must give an error and no rows.",
+  note=NOTE + "independent reader (cross-checked); the ORDER BY oracle is derived from PRAGMA index_xinfo",
+  design="6 C02, 3.3"),
+ "C03": dict(
+  technique="TLA+ spec BTree.tla + Values.tla; TLC-exhaustive refinement of equality scans on small trees; trace validation of recorded IndexedSelectEq/PKSelect by TLC; spec validated against SQLite WHERE ... IS ? queries",
+  text=BT + "Slice: IndexedSelectEq and PKSelect (index-backed and WITHOUT ROWID primary keys)." + MB + " Keys: every prefix length of entries at page boundaries/interior cells/sample, neighbours (+-1, int/real twins, case, trailing blanks), other classes, NULL, empty key; the spec takes collation/direction from SQLite's index_xinfo while the code derives them from its own schema reading.",
+  note=NOTE + "independent reader (cross-checked); SQLite equality oracle uses `+col COLLATE c IS +CAST(? AS TEXT)` to avoid affinity conversions",
+  design="6 C03, 3.3"),
+ "C12": dict(
+  technique="TLA+ spec BTree.tla with fault position; TLC-exhaustive over small trees x every fault position; fault enumeration on real operations, every recorded outcome judged by TLC",
+  text=BT + "Slice: the j-th page read fails." + MB + " For one clean operation of every kind (low level scans/searches and every high level select incl. nested lookups) per object, the k-th read fails for every k in 1..R (sampled above a limit) as I/O error or short read on a fresh handle, plus an unobtainable lock; TLC requires an error and a delivered prefix of the Reference.",
+  note=NOTE + "faults are injected at the pager interface of the traced handle (detectable faults only, as the property states); the driver's error path is C19's",
+  design="6 C12, 3.3", category="model_checking"),
 }
 
 NOT_YET = "check not built yet (work in progress; see DESIGN.md section 9 order of work)"
